@@ -252,7 +252,9 @@ func (c *connectClient) NewConn(
 	header.Del(connectHeaderTimeout)
 	if deadline, ok := ctx.Deadline(); ok {
 		millis := int64(time.Until(deadline) / time.Millisecond)
-		if millis > 0 {
+		// Less than a millisecond left is sent as 0: sending nothing would
+		// tell the server that there's no deadline at all.
+		if millis >= 0 {
 			encoded := strconv.FormatInt(millis, 10 /* base */)
 			if len(encoded) <= 10 {
 				header[connectHeaderTimeout] = []string{encoded}
